@@ -159,6 +159,8 @@ def c_gpd(r):
     while True:
         n, d = r.range(3, 8), r.range(1, 3)
         pts = distinct_points(r, n, d, lambda: dy(r.range(-16, 16), -4))
+        if r.chance(1, 4):
+            pts = with_copies(r, pts)        # coincident samples
         perps = [p for p in (Fraction(3, 2), Fraction(2), Fraction(5, 2), Fraction(3), Fraction(4), Fraction(5))
                  if min_ties(pts) < p < len(pts) - 1]
         if perps:
@@ -167,7 +169,40 @@ def c_gpd(r):
     return "gpd N=%d D=%d X=%s perp=%s" % (len(pts), d, fmts(flat(pts)), fmt(perp))
 
 
+def with_copies(r, pts):
+    """some samples repeated (coincident samples: distance 0, the tree may return a copy before the query itself)"""
+    out = list(pts)
+    for _ in range(r.range(1, 3)):
+        out.append(r.choice(pts))
+    return r.shuffle(out)
+
+
+def c_gpk_special(r):
+    """coincident samples, and distance ties exactly at the K-th neighbour (equally spaced samples)"""
+    if r.chance(1, 2):
+        while True:
+            d = r.choice([1, 1, 2])
+            pts = with_copies(r, distinct_points(r, r.range(6, 11), d, lambda: dy(r.range(-24, 24), -5)))
+            n = len(pts)
+            perps = [p for p in (Fraction(3, 2), Fraction(2), Fraction(5, 2), Fraction(3))
+                     if 3 * p <= n - 1 and p > min_ties(pts)]
+            if perps:
+                break
+        perp = r.choice(perps)
+    else:
+        n = r.range(9, 13)
+        o = dy(r.range(-8, 8), -4)
+        pts = r.shuffle([(o + dy(k, -3),) for k in range(n)])
+        d = 1
+        perp = r.choice([Fraction(5, 2)] + ([Fraction(3)] if n >= 11 else []))     # K = 7, 9: one of the pair at +-4, +-5
+    k = int(SOURCE["kMult"] * perp)
+    return "gpk N=%d D=%d X=%s perp=%s K=%d Kspec=%d rnd=%s" % (n, d, fmts(flat(pts)), fmt(perp), k, int(3 * perp),
+                                                                ",".join(str(r.below(1 << 20)) for _ in range(8)))
+
+
 def c_gpk(r):
+    if r.chance(1, 4):
+        return c_gpk_special(r)
     if r.chance(1, 4):
         d = r.range(1, 2)
         pts = tight_clusters(r, d)
@@ -545,6 +580,7 @@ def correspond(ctx):
             ("vps", lambda: c_vps(r.fork(), big=not quick), 250, 5000),
             ("gpd", lambda: c_gpd(r.fork()), 16, 300),
             ("gpk", lambda: c_gpk(r.fork()), 24, 400),
+            ("gpk-coincident-and-cut-ties", lambda: c_gpk_special(r.fork()), 16, 300),
             ("exg", lambda: c_exg(r.fork(), fd=False), 80, 1500),
             ("exg-fd", lambda: c_exg(r.fork(), fd=True), 10, 200),
             ("bhg", lambda: c_bhg(r.fork()), 120, 3000),
